@@ -142,16 +142,22 @@ def _file_case(args):
                         out.append((_sig(e, 'amalgamate', empty and sparse_out),
                                     f'sel={c["sel"]} sparse={sparse_out} matrix={s["matrix"]}: {type(e).__name__}: {e}'))
             # ---- copy a layer into X
-            for enc in ('csr', 'csc', 'dense'):
+            from harness.checks.c05 import write_matrix
+            for enc, layout in (('csr', 'default'), ('csc', 'default'), ('dense', 'default'),
+                                ('csr', 'tiny'), ('csc', 'tiny'), ('dense', 'tiny')):
                 n += 1
-                srcl = os.path.join(d, f'layer_{enc}.h5ad')
-                _write(srcl, M, enc, layer='counts')
+                srcl = os.path.join(d, f'layer_{enc}_{layout}.h5ad')
+                if layout == 'default':
+                    _write(srcl, M, enc, layer='counts')
+                else:
+                    # every dataset of the layer stored in several one-element HDF5 chunks
+                    write_matrix(srcl, M, enc, 'counts', 'float32', 'tiny')
                 dst = os.path.join(d, 'copied.h5ad')
                 try:
                     copy_layer_to_x(original_h5ad_path=srcl, new_h5ad_path=dst, layer='counts')
                     X, o, v, e2 = _dense(dst)
                     if not np.array_equal(X, M) or o != list(obs.index) or v != list(var.index):
-                        out.append(('files:copy_layer:wrong-result', f'enc={enc} matrix={s["matrix"]} got {X.tolist()}'))
+                        out.append(('files:copy_layer:wrong-result', f'enc={enc} layout={layout} matrix={s["matrix"]} got {X.tolist()}'))
                 except Exception as e:
                     out.append((_sig(e, 'copy_layer', M.sum() == 0 and enc != 'dense'),
                                 f'enc={enc} matrix={s["matrix"]}: {type(e).__name__}: {e}'))
@@ -186,6 +192,27 @@ def run_c13(ctx, quick, rng, wd):
             seen.add(sig)
             if ctx.report(sig, msg, {'scenario_matrix': s['matrix']}):
                 nbad += 1
+    # a layer large enough for anndata to store it in several HDF5 chunks by itself
+    from cell_type_mapper.utils.anndata_utils import copy_layer_to_x
+    for enc in ('csr', 'csc'):
+        nr = np.random.default_rng(ctx.seed + 131)
+        big = (nr.random((300, 120)) < 0.3) * nr.integers(1, 99, size=(300, 120))
+        d = tempfile.mkdtemp(dir=wd)
+        try:
+            srcl = os.path.join(d, 'big.h5ad')
+            _write(srcl, big, enc, layer='counts')
+            dst = os.path.join(d, 'copied.h5ad')
+            with warnings.catch_warnings():
+                warnings.simplefilter('ignore')
+                copy_layer_to_x(original_h5ad_path=srcl, new_h5ad_path=dst, layer='counts')
+            X, o, v, e2 = _dense(dst)
+            ctx.count({'big_layer': enc}, nontrivial=True)
+            if not np.array_equal(X, big.astype(np.float32)):
+                nbad += 1
+                ctx.report('files:copy_layer:wrong-result', f'300x120 {enc} layer ({int((big != 0).sum())} stored '
+                           f'values, natively chunked): copied X differs', {'big_layer': enc})
+        finally:
+            shutil.rmtree(d, ignore_errors=True)
     ctx.part('files', patterns=len(scns), disagreements=nbad)
 
 
